@@ -97,6 +97,26 @@ Proof.
           (tlsh_many_fuel psk_identity_step tlsh_psk_identity_shortens f1 s f2 H1 H2)))))).
 Qed.
 
+
+(* no per-connection memo: on a connection that already carried a hello (tls matcher, tls handler,
+   then a tls matcher on the inner stream) the verdict is that of the bytes now in front of the
+   matcher, a parsed hello overwrites the placeholders, anything else leaves them alone *)
+Theorem C07_rematch_bytes_only : forall subs st p,
+  fst (tls_rematch subs st p) = r_verdict (tls_match subs p) /\
+  (forall n v, r_server_name (tls_match subs p) = Some n -> r_version (tls_match subs p) = Some v ->
+     snd (tls_rematch subs st p) = Some (n, v)) /\
+  (r_server_name (tls_match subs p) = None -> snd (tls_rematch subs st p) = st).
+Proof. exact tlsh_rematch_bytes_only. Qed.
+
+Theorem C07_rematch_after_outer_hello : forall subs subs0 st0 pA,
+  let st := snd (tls_rematch subs0 st0 pA) in
+  (forall t p, t <> x16 -> (4 <= List.length p)%nat -> fst (tls_rematch subs st (t :: p)) = No) /\
+  (forall v h rest, wf_hello h -> vfits 2 (hs_header (encode_hello h) ++ encode_hello h) ->
+     tls_rematch subs st (encode_record v h ++ rest) =
+     (if subs (info_of_hello h) then Yes else No, Some (sni h, h_legacy_version h))).
+Proof. exact tlsh_rematch_after. Qed.
+
+
 (* the alpn sub-matcher: some configured protocol is among the client's *)
 Theorem C07_alpn_match : forall cfg protos,
   alpn_match cfg protos = true <-> exists a, In a cfg /\ In a protos.
@@ -194,6 +214,14 @@ Proof.
   vm_compute. repeat split; try discriminate; apply Nat.leb_le; reflexivity.
 Qed.
 
+(* outer hello (wildcard example.com name), then plain HTTP: No; then that hello again: its own name *)
+Example C07_example_rematch :
+  let st := snd (tls_rematch (fun _ => true) None (encode_record 769 ex_hello)) in
+  st = Some (unhex "2a2e6578616d706c652e636f6d", 771%N) /\
+  tls_rematch (fun _ => true) st (unhex "474554202f20485454502f312e310d0a") = (No, st) /\
+  fst (tls_rematch (fun i => alpn_match [unhex "6833"] (i_protos i)) st (encode_record 769 ex_hello)) = No.
+Proof. vm_compute. repeat split. Qed.
+
 (* a hello without supported_versions gets the list derived from legacy_version 0x0302 *)
 Example C07_example_legacy :
   i_versions (parse_hello (unhex "01000029" ++ encode_hello
@@ -227,6 +255,9 @@ Print Assumptions C07_gate_incomplete_more.
 Print Assumptions C07_match_record_partial.
 Print Assumptions C07_decision_stable.
 Print Assumptions C07_fuel_adequate.
+Print Assumptions C07_rematch_bytes_only.
+Print Assumptions C07_rematch_after_outer_hello.
+Print Assumptions C07_example_rematch.
 Print Assumptions C07_alpn_match.
 Print Assumptions C07_alpn_routing.
 Print Assumptions C07_fragmented_hello_refuted.
